@@ -73,6 +73,27 @@ def _match_fuzzy(
     return props_left
 
 
+def _key_is_taken(
+    feature_key: str,
+    idx: int,
+    prop: str,
+    importable_props: list[str],
+    mapping: dict[str, str | list[str]],
+    multi_value_matches: dict[str, dict[int, str]],
+) -> bool:
+    """Check if assigning prop to feature_key would lose another source column.
+
+    That is the case if the key (or this index of a multi-value key) was already
+    matched, or if the key is the name of another remaining column, which will be
+    mapped to itself as a custom property.
+    """
+    if feature_key in mapping:
+        return True
+    if idx in multi_value_matches.get(feature_key, {}):
+        return True
+    return feature_key in importable_props and feature_key != prop
+
+
 def _match_display_names_exact(
     importable_props: list[str],
     display_name_to_key: dict[str, tuple[str, int]],
@@ -99,6 +120,9 @@ def _match_display_names_exact(
     for prop in importable_props:
         if prop in display_name_to_key:
             feature_key, idx = display_name_to_key[prop]
+            if _key_is_taken(feature_key, idx, prop, importable_props, mapping,
+                             multi_value_matches):
+                continue
             # Check if this is a multi-value feature (has other indices)
             is_multi_value = any(
                 k == feature_key and i != idx for _, (k, i) in display_name_to_key.items()
@@ -168,6 +192,9 @@ def _match_display_names_fuzzy(
 
         if closest:
             _, feature_key, idx = lower_display_map[closest[0]]
+            if _key_is_taken(feature_key, idx, prop, importable_props, mapping,
+                             multi_value_matches):
+                continue
             # Check if this is a multi-value feature
             is_multi_value = any(
                 k == feature_key and i != idx for _, (k, i) in display_name_to_key.items()
